@@ -1,3 +1,125 @@
-"""generated sections (#gen directives): constant axioms for World R, coefficient lemmas."""
-def generate(arg, repo, meta, log):
-    raise NotImplementedError(arg)
+"""generated sections (#gen directives).
+
+world_r <consts-file> ... : World-R axioms that depend on the text of /repo
+    - for every module-level `const X: Float = <expr>;` of the listed files: R(X_s()) == <exact rational
+      of the expression, literals read as decimal fractions> and the two linear product axioms
+    - for every float literal occurring in the code extracted for this unit: R(lit) == <exact rational>
+      and the two linear product axioms
+  They are regenerated from the current tree on every run, so a changed constant changes its axiom
+  (and fails the order-condition lemmas of the coef units, which read the same text).
+"""
+import re
+from fractions import Fraction
+from . import core
+from .lexer import lex
+
+def lit_value(text):
+    t = text.replace("_", "")
+    m = re.match(r"^([0-9]*\.?[0-9]*(?:[eE][+-]?[0-9]+)?)(f64|f32)?$", t)
+    if not m or not m.group(1) or not re.search(r"[0-9]", m.group(1)):
+        return None
+    try:
+        return Fraction(m.group(1))
+    except (ValueError, ZeroDivisionError):
+        return None
+
+def is_float_lit(text):
+    t = text.replace("_", "")
+    if t.endswith("f64") or t.endswith("f32"): return True
+    if re.match(r"^[0-9]+$", t): return False
+    return bool(re.match(r"^[0-9]*\.[0-9]*([eE][+-]?[0-9]+)?$|^[0-9]+[eE][+-]?[0-9]+$|^[0-9]+\.$", t))
+
+def eval_const(toks):
+    """exact rational value of a const initialiser made of literals, + - * / and parentheses"""
+    pos = [0]
+    def peek(): return toks[pos[0]].text if pos[0] < len(toks) else None
+    def take():
+        pos[0] += 1; return toks[pos[0] - 1]
+    def atom():
+        t = take()
+        if t.text == "(":
+            v = expr()
+            if take().text != ")": raise core.Undecided("const expression: missing ')'")
+            return v
+        if t.text == "-": return -atom()
+        if t.kind == "num":
+            v = lit_value(t.text)
+            if v is None:
+                v = Fraction(int(t.text.replace("_", "")))
+            return v
+        raise core.Undecided("const expression: unsupported token %r" % t.text)
+    def term():
+        v = atom()
+        while peek() in ("*", "/"):
+            op = take().text
+            w = atom()
+            v = v * w if op == "*" else v / w
+        return v
+    def expr():
+        v = term()
+        while peek() in ("+", "-"):
+            op = take().text
+            w = term()
+            v = v + w if op == "+" else v - w
+        return v
+    v = expr()
+    if pos[0] != len(toks):
+        raise core.Undecided("const expression: trailing tokens")
+    return v
+
+def real(fr):
+    if fr < 0:
+        return "(0real - %dreal / %dreal)" % (-fr.numerator, fr.denominator)
+    return "(%dreal / %dreal)" % (fr.numerator, fr.denominator)
+
+def spec_lit(text):
+    t = text.replace("_", "")
+    if t.endswith("f64"): return t
+    if t.endswith("f32"): return t[:-3] + "f64"
+    return t + "f64"
+
+def generate(arg, repo, meta, log, ctx):
+    parts = arg.split()
+    kind = parts[0]
+    if kind == "world_r":
+        return gen_world_r(parts[1:], repo, ctx, log)
+    raise core.Undecided("unknown generator %r" % kind)
+
+def gen_world_r(files, repo, ctx, log):
+    out = []
+    names = []
+    uses = []
+    out.append("pub mod genr { use vstd::prelude::*; use vstd::std_specs::ops::*; use super::fdefs::*;")
+    for path in files:
+        stem = path.rsplit("/", 1)[-1].rsplit(".", 1)[0]
+        out.append("use super::cdefs_%s::*;" % stem)
+        toks = core.read_tokens(repo, path)
+        for (name, ty, expr, ln) in core.const_items(toks):
+            if ty not in ("Float", "f64"): continue
+            v = eval_const(expr)
+            out.append("pub broadcast axiom fn ax_%s() ensures R(#[trigger] %s_s()) == %s;" % (name, name, real(v)))
+            out.append("pub broadcast axiom fn cl_%s(b: f64) ensures R(#[trigger] %s_s().mul_spec(b)) == %s * R(b);" % (name, name, real(v)))
+            out.append("pub broadcast axiom fn cr_%s(b: f64) ensures R(#[trigger] b.mul_spec(%s_s())) == R(b) * %s;" % (name, name, real(v)))
+            names += ["ax_" + name, "cl_" + name, "cr_" + name]
+            log.append(("GEN", path, ln, "World-R axioms for const %s = %s" % (name, v)))
+    lits = sorted(ctx.get("float_lits", set()))
+    seen = {}
+    for k, text in enumerate(lits):
+        v = lit_value(text)
+        if v is None: continue
+        sl = spec_lit(text)
+        if sl in seen: continue
+        seen[sl] = v
+        out.append("pub broadcast axiom fn lit_v_%d() ensures R(#[trigger] id_f64(%s)) == %s;" % (k, sl, real(v)))
+        out.append("pub broadcast axiom fn lit_l_%d(b: f64) ensures R(#[trigger] %s.mul_spec(b)) == %s * R(b);" % (k, sl, real(v)))
+        out.append("pub broadcast axiom fn lit_r_%d(b: f64) ensures R(#[trigger] b.mul_spec(%s)) == R(b) * %s;" % (k, sl, real(v)))
+        names += ["lit_l_%d" % k, "lit_r_%d" % k]
+    # value axioms of literals cannot be triggered on a constant: one ground axiom
+    vals = ", ".join("R(%s) == %s" % (sl, real(v)) for sl, v in sorted(seen.items())) or "true"
+    out.append("#[verifier::allow(broadcast_without_trigger)]")
+    out.append("pub broadcast axiom fn lit_values() ensures %s;" % vals)
+    names.append("lit_values")
+    out = [l for l in out if not l.startswith("pub broadcast axiom fn lit_v_")]
+    out.append("pub broadcast group all { %s }" % ", ".join(names))
+    out.append("}")
+    return out
